@@ -132,7 +132,9 @@ def compute_pairs(P, reviewed):
                             else:
                                 continue
                     else:
-                        xdesc = '?'
+                        # `helper(..)?` with the helper inlined: the residual is the helper's own `Err(variant)` literal
+                        lit = residual_literal(b, e) if e.get('src') == 'residual' else None
+                        xdesc = 'Err(%s)' % lit if lit else '?'
                     key = '%s|%s|%s' % (b.short, mdesc, xdesc)
                     pairs.setdefault(key, (mpos, e['pos']))
             unrev = {k: v for k, v in pairs.items() if k not in reviewed}
@@ -248,6 +250,37 @@ def success_reach(b, mpos):
 def _preds_closure(b, pos, mpos):
     # cheap: the branch call must be reachable from the mutating call
     return {mpos} if pos in b.reach_from(mpos) else set()
+
+
+def residual_literal(b, e, depth=4):
+    """the AutosarDataError variant of an `Err(..)` literal that reaches this from_residual exit through Try::branch (an inlined helper
+    that returns the literal, `?`-ed by the caller)"""
+    def lit_of(o, d):
+        for org in origins(b, o):
+            if org[0] in ('param', 'const', 'place') or not isinstance(org[1], dict):
+                continue
+            st = org[1]
+            if st.get('k') == 'assign' and st['rv']['k'] == 'agg' and st['rv'].get('adt') == 'Result' and st['rv'].get('var') == 'Err' and st['rv'].get('ops'):
+                for o2 in origins(b, st['rv']['ops'][0]):
+                    if o2[0] not in ('param', 'const', 'place') and isinstance(o2[1], dict) and o2[1].get('k') == 'assign' and o2[1]['rv']['k'] == 'agg' and o2[1]['rv'].get('adt') == 'AutosarDataError':
+                        return o2[1]['rv']['var']
+            if st.get('k') == 'call' and call_matches(st, r'FromResidual.*::from_residual$') and d > 0:
+                r = res_of(st, d - 1)
+                if r:
+                    return r
+        return None
+
+    def res_of(t, d):
+        for org in origins(b, t['args'][0]):
+            if org[0] == 'place' and 'as Break' in org[1]['p']:
+                cl = org[1]['l']
+                for pos, tt in b.iter_calls():
+                    if tt['dst']['l'] == cl and not tt['dst']['p'] and call_matches(tt, r'Try>::branch$'):
+                        r = lit_of(tt['args'][0], d)
+                        if r:
+                            return r
+        return None
+    return res_of(e['term'], depth)
 
 
 def err_variant(b, e):
